@@ -1,4 +1,4 @@
-import FeatherModel.Lemmas.ClassReadCodeFinal
+import FeatherModel.Lemmas.ClassReadFinal
 
 /-!
 # C01 — the class reader delivers every fact of a valid class file accurately
@@ -87,5 +87,109 @@ theorem code_read_raw (p : Pool) (bsms : Option (List Bsm)) (c : CodeLayout) (hl
     ∃ lf, lf.WF ∧ lf.codeLength = c.pos c.insns.length ∧ (∀ pc ∈ c.refOffsets, (lf.get pc).isSome = true) ∧
       readCode p bsms (c.encode ++ r) = ok (c.raw lf, r) :=
   readCode_encode p bsms c hleg r
+
+/-- non-vacuity of `code_read_encode_partial`: `goto L1; L1: return` with a handler range reaching the end of the code
+(`end_pc = code_length`) and an unknown attribute is a legal layout -/
+def exampleCode : CodeLayout :=
+  { maxStack := 1, maxLocals := 0,
+    insns := [⟨.goto 1, .plain, 0, 0⟩, ⟨.simple 0xb1, .plain, 0, 0⟩],
+    exceptions := [⟨0, 2, 1, 0, none⟩],
+    attrs := [.unknown 1 [70, 111, 111] [1, 2]] }
+
+def examplePool : Pool := poolTable [.utf8 [70, 111, 111]]
+
+example : exampleCode.Legal examplePool none := by
+  refine ⟨⟨by decide, by decide, ?_⟩, by decide, by decide, by decide, ?_, by decide, ?_, by decide⟩
+  · intro i hi
+    match i, hi with
+    | 0, _ => exact ⟨by decide, by unfold inI16 relOff; decide⟩
+    | 1, _ => exact (by decide : isSimpleOp 0xb1 = true)
+  · intro e he
+    simp only [exampleCode, List.mem_singleton] at he
+    subst he
+    exact ⟨by decide, by decide, by decide, by decide, rfl⟩
+  · intro a ha
+    simp only [exampleCode, List.mem_singleton] at ha
+    subst ha
+    exact ⟨by decide, rfl, by decide, by decide⟩
+
+/-! ## modified UTF-8 (`jstring.rs`, `java_string`) -/
+
+/-- `mutf8_decode_encode`: `from_modified_utf8` reads the JVMS §4.4.7 encoding of every string of Unicode code
+points / unpaired surrogates back (a high surrogate directly followed by a low surrogate is excluded: that *is* the
+encoding of a supplementary code point) -/
+theorem mutf8_decode_encode (s : JStr) (hs : Mutf8.Encodable s = true) : Mutf8.decode (Mutf8.encode s) = some s :=
+  Mutf8.decode_encode s hs
+
+example : Mutf8.Encodable [0, 0x41, 0x7ff, 0xd800, 0x41, 0xdc00, 0x10ffff] = true := by decide
+
+/-- the decoder is more lenient than JVMS §4.4.7 (it first tries plain UTF-8): a raw NUL byte and a four-byte form are
+accepted.  Such strings re-encode differently, so byte-exactness is not claimed for duke (only facts). -/
+theorem mutf8_lenient_witness :
+    Mutf8.decode [0] = some [0] ∧ Mutf8.decode [0xf0, 0x90, 0x80, 0x80] = some [0x10000] ∧
+      Mutf8.decode (Mutf8.encode [0]) = some [0] ∧ Mutf8.encode [0] ≠ [0] := by decide
+
+/-- a high surrogate followed by a low surrogate cannot be read back as two code points -/
+theorem mutf8_split_pair_witness : Mutf8.decode (Mutf8.encode [0xd800, 0xdc00]) = some [0x10000] := by decide
+
+/-! ## constant pool -/
+
+/-- `pool_read`: for every list of constant-pool entries — any order, duplicates, unused entries, `Long`/`Double` at
+any position — the reader builds exactly the table these entries denote (slot 0 and the slot after a two-slot entry
+unusable) and consumes exactly the pool.  Everything the reader later says about a class goes through the lazy
+resolvers `Pool.get*` applied to this table at the indices the class file uses, so facts depend on the pool only
+through what those indices resolve to. -/
+theorem pool_read (es : List PoolEntry) (hes : ∀ e ∈ es, PoolEntryOk e) (hcount : poolCount es < 65536) (r : Bytes) :
+    readPool (encPool es ++ r) = ok (poolTable es, r) :=
+  readPool_enc es hes hcount r
+
+/-! ## the class file -/
+
+/-- `class_read_encode_partial`: for **every** class layout of the fragment — any pool, any pool indices that resolve
+to the intended constants, any interleaving order of the attributes of every owner, fields and methods with any of
+their attributes, every method body as in `code_read_encode_partial` — reading the JVMS serialisation succeeds, stops
+exactly at the end of the class file (so concatenated class files can be read one after the other), and after label
+resolution yields exactly the facts the layout denotes: header, super types, every field and method with its own
+flags, name, descriptor and attributes (nothing attached to another member), `BootstrapMethods` made available to
+the methods whatever its position, unknown attributes byte for byte.
+
+Fragment (attributes covered by the theorem): class — `Deprecated Synthetic SourceFile Signature InnerClasses
+EnclosingMethod NestHost NestMembers PermittedSubclasses BootstrapMethods` + unknown; field — `Deprecated Synthetic
+ConstantValue Signature` + unknown; method — `Deprecated Synthetic Code Exceptions Signature` + unknown; `Code` —
+`LineNumberTable LocalVariableTable LocalVariableTypeTable` + unknown, exception table.
+Outside the fragment (modelled, tied by the correspondence run and the oracles only): `StackMapTable`, `StackMap`,
+all `Runtime(In)Visible(Type|Parameter)Annotations`, `AnnotationDefault`, `MethodParameters`, `SourceDebugExtension`,
+`Record`, `Module`, `ModulePackages`, `ModuleMainClass`. -/
+theorem class_read_encode_partial (c : ClassLayout) (hleg : c.Legal) (facts : ClassFacts) (hfacts : c.facts = some facts)
+    (r : Bytes) : ∃ raw, ClassRead.read (c.encode ++ r) = ok (raw, r) ∧ raw.resolve = some facts :=
+  read_encode c hleg facts hfacts r
+
+/-- non-vacuity: the smallest class file `class A` (version 52.0, pool `[Utf8 "A", Class #1]`) -/
+def exampleClass : ClassLayout :=
+  { minor := 0, major := 52, pool := [.utf8 [65], .cls 1], access := 0x21, thisCp := 2, name := [65], superCp := 0, super := none,
+    interfaces := [], fields := [], methods := [], attrs := [] }
+
+example : exampleClass.Legal := by
+  refine ⟨by decide, ?_, by decide, by decide, ⟨by decide, rfl⟩, ⟨by decide, rfl⟩, by decide, by simp [exampleClass],
+    by decide, by simp [exampleClass], by decide, by simp [exampleClass], by decide, by simp [exampleClass], rfl⟩
+  intro e he
+  simp only [exampleClass, List.mem_cons, List.not_mem_nil, or_false] at he
+  rcases he with rfl | rfl
+  · exact ⟨by decide, by decide⟩
+  · exact (by decide : (1 : Nat) < 65536)
+
+/-- `Runtime(In)VisibleParameterAnnotations` are consumed but **not delivered** (the tree has no place for them,
+`// TODO` in `read_method`): whatever the attribute says, the method description is unchanged.  This is why the
+fidelity theorem is `_partial`; the gap is a known finding. -/
+theorem parameter_annotations_dropped_witness (p : Pool) (bsms : Option (List Bsm)) (m : MethodFacts) (nc : Nat) (visible : Bool)
+    (body r : Bytes) (hnc : nc < 65536) (hname : p.getUtf8 nc = ok (if visible then sRVPA else sRIPA))
+    (hlen : body.length < 4294967296) :
+    readMethodAttr p bsms m (attrFrame nc body ++ r) = ok (m, r) := by
+  cases visible <;>
+    simp [readMethodAttr, attrFrame, u16_be16 _ hnc, hname, u32_be32 _ hlen, skipN,
+      show sRIPA ≠ sDeprecated ∧ sRIPA ≠ sSynthetic ∧ sRIPA ≠ sCode ∧ sRIPA ≠ sExceptions ∧ sRIPA ≠ sSignature ∧ sRIPA ≠ sRVA ∧
+        sRIPA ≠ sRIA ∧ sRIPA ≠ sRVTA ∧ sRIPA ≠ sRITA ∧ sRIPA ≠ sRVPA by decide,
+      show sRVPA ≠ sDeprecated ∧ sRVPA ≠ sSynthetic ∧ sRVPA ≠ sCode ∧ sRVPA ≠ sExceptions ∧ sRVPA ≠ sSignature ∧ sRVPA ≠ sRVA ∧
+        sRVPA ≠ sRIA ∧ sRVPA ≠ sRVTA ∧ sRVPA ≠ sRITA by decide]
 
 end Thm.C01
